@@ -294,6 +294,17 @@ def biglen_query(root, timeout=900, window=False, transcribe=False):
                                  "every 1/2/4-byte length 0..INT32_MAX, every integer width, doubles"}, group="h_biglen")
 
 
+def biglookup_query(window=False, timeout=900):
+    return Query("biglookup.obj%s" % (".window" if window else ""), "h_biglookup.c",
+                 defines=dict({"WINDOW": 1} if window else {}), sources=("parser",),
+                 unwindset={"_advance_parsing.0": 4, "_parse_integer.0": 9, "memcmp.0": 4, "binson_parser_field_with_length.0": 3},
+                 unwind=20, checks="mem", timeout=timeout, mem_gb=4,      # (needs < 2 GB; 4 = start with the first batch)
+                 tags={"family": "H-LOOKUP-BIG", "what": "failed lookup (looked-up name of 0/1 symbolic bytes, strictly smaller) that stops at a stored "
+                       "name with a symbolic header, claimed buffer size symbolic up to 2^33: every 1/2/4-byte name length 1..INT32_MAX; "
+                       "cursor steps back to the start of the name token, repeated lookups see the same token, no error"},
+                 group="h_biglookup")
+
+
 def offset_token_nodes():
     """numeric tokens behind 0..3 one-byte elements: the payload lands on every residue of its offset modulo 4
     (a decode that depends on where the bytes happen to sit)"""
@@ -648,12 +659,16 @@ def plan_C07(tier):
             qs.append(script_query(7, s, n, D, 1, J=J))
     # the three way compare itself
     qs.append(leaf_query("cmp_name"))
+    # failed lookup stopping at a name of any length (1/2/4-byte length prefix), claimed-size form
+    qs.append(biglookup_query())
+    if tier != "quick":
+        qs.append(biglookup_query(window=True))
     info = {
         "rule": "H-SHAPE lookups: one query per (object shape, lookup script): field names in the document and the names looked up "
                 "(length 0..2, arbitrary bytes incl. 0x00 and >= 0x80) are symbolic; result, name, type and value compared with the "
                 "reference lookup. H-SCRIPT: all valid n-byte objects. H-LEAF: _cmp_name sign for all contents of lengths <= 4.",
         "bounds": {"object_shapes": [n.label() for n in shapes_l], "scripts": scripts, "looked_up_name_len": [0, 2]},
-        "outside": ["objects with more than 3 fields", "names longer than 2 bytes in API queries (4 in the compare kernel)", "lookup lengths >= 2^31"],
+        "outside": ["objects with more than 3 fields", "names longer than 2 bytes in API queries (4 in the compare kernel), except the failed lookup that stops at the FIRST stored name of an object (any length)", "lookup lengths >= 2^31"],
         "assumptions": ["lookups are issued inside an object", STD_ASSUME_SHAPE],
     }
     return qs, info
@@ -792,6 +807,8 @@ def plan_C08(tier):
         qs.append(script_query(8, s, n, 2, root, mode=2, J=None if n <= 5 else 6))
     qs += mutation_queries(8, tier)
     qs += payload_queries(8, tier)
+    if tier != "quick":
+        qs.append(biglookup_query())     # a failed lookup over a name of >= 128 / >= 32768 bytes leaves a cursor the rest of the traversal can use (quick: under C07)
     info = {
         "rule": "H-SCRIPT in parser-driven mode on ARBITRARY bytes: ops are executed while the parser's own answers make them legal; "
                 "if the traversal ends by leaving the root: (all calls true and error NONE) <=> ref_verify accepts. H-MUT: every shape "
